@@ -15,7 +15,7 @@ CLAIMS = {
          "look-around definitions: C02_look_error_stop via validCB + liveCertB (viability table proved exact); error *values* supplied by user callbacks are executed, not modelled.",
          "Lean theorem + proved certificate checker + correspondence on unmatched runs / truncated tokens"),
  'C03': ("graphLex_tiles: for every graph satisfying the decidable predicate WF (proved checker wfB, run on every captured graph) and every input, lexing terminates, items are non-empty, strictly increasing, inside the input and end at its length; win_none + Valid: an accepted (validated) definition has no nullable pattern; every corpus definition with a nullable leaf (Lean nullable on the captured HIR) must be rejected by the real derive; tiling predicate applied directly to every stream of the compiled lexers.",
-         "callbacks that bump are excluded from graphLex_tiles (NoBump).",
+         "graphLex_tiles_bump / partial_tiles_bump extend the tiling theorem to callbacks that bump within the remainder they are handed (BumpOK; zooCallback_bumpOK: the zoo's callbacks satisfy it); a bump that Lexer::bump rejects (out of range or inside a code point) is a panic and belongs to C15.",
          "Lean theorem over all well-formed graphs + proved WF checker + correspondence"),
  'C04': ("spans_on_boundaries: validated definition + every pattern's language within valid UTF-8 (proved checker utf8ClosedB, product of derivatives with the UTF-8 framing automaton, run on every leaf) + valid input => every item boundary is a char boundary; match_end_is_boundary; runner checks span/slice/remainder against is_char_boundary on every stream.",
          "subpattern-level acceptance is exercised by the malformed stream of C12/C19; bumping callbacks belong to C15.",
@@ -48,7 +48,7 @@ CLAIMS = {
          "callback bodies are executed, not modelled (same pure decision on both sides).",
          "Lean theorem (for all callback tables) + correspondence with every return type"),
  'C14': ("Pool-of-lexers model of the public API (next, spanned next, bump, clone, morph); api_in_range: for two well-formed graphs over one source and any finite call sequence every lexer keeps start <= end <= len, so slice()/remainder() are total; clone_independent, morph_preserves, morph_twice, spanned_eq_manual; random histories run on the real Lexer (4 builds; span/slice/remainder/extras checked after every call) and on the model over the captured graphs of the same two token types.",
-         "api_in_range is proved for ordinary lexers (partial lexers: correspondence only); extras are a constant carried along.",
+         "api_in_range_any extends api_in_range to partial lexers and to callbacks that bump within the remainder (BumpOK); extras are a constant carried along.",
          "Lean invariant over all call sequences + random-history correspondence in 4 builds"),
  'C15': ("bumpFixed_ok_iff, bumpFixed_preserves, after_any_bumps_safe: the repaired rule (checked_add, assert, then assign) succeeds exactly when the new end is representable, in range and on a boundary, and every sequence of bumps, successful or panicking, leaves a span for which slice()/remainder() are defined; bumpFound_* prove that the code as found violated this (kept as regression witnesses); real Lexer::bump exercised at boundary values in debug/release x default/forbid_unsafe under catch_unwind.",
          "the model treats usize as 64-bit; 32-bit targets are not exercised.",
